@@ -15,6 +15,8 @@ PID = "C14"
 SPEC, CFG, DIAG = "Tr_Session.tla", "Tr_Session.cfg", "Tr_Session_diag.cfg"
 SIZES = {"quick": dict(n=48, maxprior=40, depths=(6, 8)), "thorough": dict(n=1500, maxprior=40, depths=(6, 11))}
 DEFAULTS = {"Hash": "16", "MultiPV": "1", "UseNullMove": "true", "Strength": "1000", "Contempt": "0", "UCI_AnalyseMode": "false", "Ponder": "false"}
+TERMINAL = ["7k/5Q2/6K1/8/8/8/8/8 b - - 0 1", "R5k1/5ppp/8/8/8/8/8/6K1 b - - 0 1", "rnb1kbnr/pppp1ppp/8/4p3/6Pq/5P2/PPPPP2P/RNBQKBNR w KQkq - 1 3",
+            "k7/2Q5/1K6/8/8/8/8/8 b - - 0 1"]
 TBFENS = ["8/8/8/3k4/8/3K4/4Q3/8 w - - 0 1", "8/8/8/3k4/8/3K4/4R3/8 w - - 0 1", "8/1r6/8/6k1/8/3K4/8/7Q w - - 0 1"]
 
 
@@ -129,6 +131,34 @@ def session(bdir, sid, seed, corpus, sz, contempt):
         A.send("setoption name Clear Hash")
         ev.append({"e": "Cmd", "proc": "A", "kind": "clearhash"})
         A.isready()
+        # a 'go' that is answered without searching (no legal move, or a move of the built-in book) between Clear Hash and the probe: it
+        # leaves nothing behind (Session.tla: no state change), so the probe must still equal that of a fresh engine given the same commands
+        nosearch = []
+        if rnd.random() < 0.35:
+            if rnd.random() < 0.6:
+                nosearch = [f"position fen {rnd.choice(TERMINAL)}", "go depth 3"]
+            else:
+                nosearch = ["setoption name OwnBook value true", "position startpos", "go depth 3", "setoption name OwnBook value false"]
+
+        def run_nosearch(E, proc):
+            for c in nosearch:
+                E.send(c)
+                if c.startswith("go"):
+                    lines, ok = E.read_until(lambda l: l.startswith("bestmove"), 120)
+                    if not ok:
+                        return False
+                    if any(l.startswith("info depth") for l in lines):
+                        return None          # the engine searched after all (book miss): not the history wanted here
+            if nosearch:
+                E.isready()
+                if proc != "B2":
+                    ev.append({"e": "Cmd", "proc": proc, "kind": "nosearch", "go": " | ".join(nosearch)})
+            return True
+        r0 = run_nosearch(A, "A")
+        if r0 is False:
+            return ev, "no-bestmove in search-less go (A)"
+        if r0 is None:
+            return [ev[0]], "ok"       # dropped: nothing to compare
         wtm = " w " in probe["fen"]
         if tbsession or contemptsession:
             go = rnd.choice(["nodes 150000", "nodes 300000", "depth 10"])
@@ -136,7 +166,7 @@ def session(bdir, sid, seed, corpus, sz, contempt):
             go = f"depth {rnd.randint(*sz['depths'])} nodes 600000"       # the node cap bounds the running time (random-valued nets order moves badly: depth 11 can take an hour)
         else:
             go = f"nodes {rnd.choice([5000, 30000, 80000])}"
-        cmd = f"position fen {probe['fen']} ; go {go} ; net {net} ; {fixed}"
+        cmd = f"{' ; '.join(nosearch)}{' ; ' if nosearch else ''}position fen {probe['fen']} ; go {go} ; net {net} ; {fixed}"
         lines = do_search(A, probe["fen"], go, timeout=900, must_finish=True)      # probes must run to their own end; generous time-out
         if lines is None:
             return ev, "no-bestmove in probe (A)"
@@ -151,6 +181,8 @@ def session(bdir, sid, seed, corpus, sz, contempt):
                     if proc == "B":
                         ev.append({"e": "Cmd", "proc": "B", "kind": "setoption", "name": k, "value": v, "isDefault": False})
                 B.isready()
+                if run_nosearch(B, proc) is not True:
+                    return ev, f"search-less go behaved differently in the fresh engine ({proc})"
                 lines = do_search(B, probe["fen"], go, timeout=900, must_finish=True)
                 if lines is None:
                     return ev, f"no-bestmove in probe ({proc})"
